@@ -124,8 +124,9 @@ def tlc(ctx, module, cfg, *, workers=16, dump=None, timeout=600, simulate=None, 
     mv = re.search(r"Error: Invariant (\S+) is violated", out) or re.search(r"Error: Action property (\S+) is violated", out)
     if mv:
         res["violated"] = mv.group(1)
-    elif "Temporal properties were violated" in out:
-        res["violated"] = "temporal"
+    elif re.search(r"Temporal propert(y|ies) .*violated", out):
+        mt = re.search(r"Temporal property (\S+) was violated", out)
+        res["violated"] = mt.group(1) if mt else "temporal"
     elif "Deadlock reached" in out:
         res["violated"] = "deadlock"
     res["finished"] = "Model checking completed. No error has been found" in out
@@ -230,8 +231,22 @@ def overlay(ctx, pkgs, extra=None):
     return p
 
 
+_NETNS = None
+
+
+def have_netns():
+    """Can we give the harness a private network namespace (no port collisions with anything else on the machine)?"""
+    global _NETNS
+    if _NETNS is None:
+        try:
+            _NETNS = subprocess.run(["unshare", "-n", "sh", "-c", "ip link set lo up"], capture_output=True, timeout=20).returncode == 0
+        except Exception:
+            _NETNS = False
+    return _NETNS
+
+
 def go_harness(ctx, pkg, test, *, env=None, tags="verif", timeout=600, race=False, name=None, extra_overlay=None,
-               gotimeout=None, allow_fail=False):
+               gotimeout=None, allow_fail=False, netns=False):
     """Run one harness test of package <pkg> (path relative to the repo root) against the current working tree.
     Returns the parsed report (dict). Build failures / crashes are MachineryError."""
     name = name or test
@@ -252,6 +267,9 @@ def go_harness(ctx, pkg, test, *, env=None, tags="verif", timeout=600, race=Fals
     if race:
         cmd.append("-race")
     cmd.append("./" + pkg if pkg != "." else ".")
+    if netns and have_netns():
+        import shlex
+        cmd = ["unshare", "-n", "sh", "-c", "ip link set lo up; exec " + " ".join(shlex.quote(c) for c in cmd)]
     t0 = time.time()
     rc, out = run(ctx, cmd, timeout, env=e, cwd=REPO)
     wall = time.time() - t0
